@@ -41,6 +41,12 @@ def c10_case_list(tier, seed, only_fn=None):
             for tol_, seed_ in ((1e-3, 0), (1e-8, 1)) + (((1e-5, 2),) if tier == "thorough" else ()):
                 cases.append(dict(fn="_autoregressive_bisection_search", func="triangular", root=0.5, dim=dim, tol=tol_, max_iter=200, seed=seed_, lower=-10.0, upper=10.0))
         cases.append(dict(fn="_autoregressive_bisection_search", func="triangular", root=0.5, dim=3, tol=1e-6, max_iter=200, seed=4, lower=-1.0, upper=1.0, spread=20.0))
+        # integer-typed bounds (a user writing lower=-10, upper=10): the preimage is not integer valued
+        cases.append(dict(fn="_autoregressive_bisection_search", func="triangular", root=0.5, dim=3, tol=1e-6, max_iter=200, seed=5, lower=-10, upper=10, int_bounds=True))
+        cases.append(dict(fn="_autoregressive_bisection_search", func="triangular", root=0.5, dim=1, tol=1e-8, max_iter=200, seed=6, lower=-3, upper=4, int_bounds=True))
+    if only_fn in (None, "_bisection_search"):
+        for f in ("linear_steep", "cubic"):
+            cases.append(dict(fn="_bisection_search", func=f, root=0.3, lower=-10, upper=10, tol=1e-7, max_iter=200, int_bounds=True))
     if only_fn in (None, "_adapt_interval_to_include_root"):
         for f, r in itertools.product(funcs, roots + [-4.0, 8.0]):
             for lo, hi in ((-10.0, 10.0), (-2.0, 0.0), (3.0, 3.5)):
